@@ -65,7 +65,7 @@ Room(q) == Cardinality(inflight[q]) < Max[q]
 Request(t, qs, early, out, mode) ==
     LET ch == Chains(qs)  cs == Range(ch) IN
     /\ last' = [ev |-> "req", t |-> t, qs |-> qs, early |-> early, out |-> out, mode |-> mode]
-    /\ \A q \in cs : t \notin inflight[q]
+    /\ \A q \in Quota : t \notin inflight[q]         \* (environment) ids are unique: t is not in flight anywhere
     /\ out \in {"admit", "early", "refuse"}
     /\ (out = "early") => early
     /\ (out = "admit") => ~early
